@@ -295,6 +295,7 @@ theorem writeText_keep (c : Ctx) (s : Str) (f p : Bool) (out : Str) (c' : Ctx) (
 
 theorem writeChar_keep (c : Ctx) (s : Str) (q allowText : Bool) (out : Str) (c' : Ctx)
     (h : writeChar c s q allowText = .ok (out, c')) : Keep c c' := by
+  have h := (Lemmas.WriterChar.writeChar_ok c s q allowText (out, c') h).2
   by_cases hv : c.isCif1 = true ∧ validate11 s = false
   · rw [Lemmas.WriterChar.writeChar_invalid c s q allowText hv] at h; cases h
   rcases Lemmas.WriterChar.delimLength_cases s (!q) (!c.isCif1) LINE with d | d | d | d
@@ -507,6 +508,8 @@ theorem value_presented_strong (c : Ctx) (s : Str) (q : Bool) (out : Str) (c' : 
       ∧ (p ≠ .text → s' = s) ∧ (p = .text → Model.Decode.decodeText true true s' = s)
       ∧ (p = .bare → q = false ∧ s.head? ≠ some 59 ∧ recommend s (!q) (!c.isCif1) LINE = .none)
       ∧ (recommend s (!q) (!c.isCif1) LINE = .none → p = .bare) := by
+  have h0w := h
+  have h := (Lemmas.WriterChar.writeChar_ok c s q true (out, c') h).2
   by_cases hrec : recommend s (!q) (!c.isCif1) LINE = .none
   · have hv : ¬(c.isCif1 = true ∧ validate11 s = false) := by
       intro hv; rw [Lemmas.WriterChar.writeChar_invalid c s q true hv] at h; cases h
@@ -522,7 +525,7 @@ theorem value_presented_strong (c : Ctx) (s : Str) (q : Bool) (out : Str) (c' : 
       have := (C18_delim_permitted s (!q) (!c.isCif1) LINE).1 hrec
       simpa using this
     exact ⟨_, .bare, s, h.1.symm, hadm, (by intro e; cases e), fun _ => rfl, (by intro e; cases e), fun _ => ⟨hq, h59, hrec⟩, fun _ => rfl⟩
-  · obtain ⟨wrap, p, s', hout, hadm, htext, _, hs1, hs2, hbare⟩ := C02_value_presented c s q out c' hok hcol h
+  · obtain ⟨wrap, p, s', hout, hadm, htext, _, hs1, hs2, hbare⟩ := C02_value_presented c s q out c' hok hcol h0w
     exact ⟨wrap, p, s', hout, hadm, htext, hs1, hs2, hbare, fun hr => absurd hr hrec⟩
 
 /-- `write_char` on a value, as chunks: optional line break, one value token; the token stands for the string -/
@@ -668,8 +671,9 @@ theorem key_chunks (c : Ctx) (k : Str) (o1 o2 : Str) (c3 c4 : Ctx) (h2 : c.isCif
   have hv : ¬(c.isCif1 = true ∧ validate11 k = false) := by simp [h2]
   have hd : (analyze k (!true) (!c.isCif1) LINE).delimLength ≠ 2 := by
     intro hd
-    rw [Lemmas.WriterChar.writeChar_delim2_refused c k true false hv hd (Or.inl rfl)] at h
-    cases h
+    have h' := (Lemmas.WriterChar.writeChar_ok c k true false (o1, c3) h).2
+    rw [Lemmas.WriterChar.writeChar_delim2_refused c k true false hv hd (Or.inl rfl)] at h'
+    cases h'
   obtain ⟨wrap, p, s', ⟨hout, hadm, _, _, hs1, _, hbare⟩, hnt⟩ :=
     writeChar_presented_nt c k true false o1 c3 (by rw [hdia]; exact hok) hcol hd h
   have hs := hs1 hnt
